@@ -164,7 +164,7 @@ def result_record(ctx, index, seed):
 # --- minimisation -------------------------------------------------------------------------------------------------
 
 
-def shrink(mod, pid, scenario, target_class, known, tier, max_exec=80, max_wall=90.0):
+def shrink(mod, pid, scenario, target_class, known, tier, max_exec=80, max_wall=40.0):
     """greedy delta debugging driven by the property's own candidate generator"""
     t0 = time.time()
     execs = 0
@@ -248,7 +248,7 @@ def worker_main(pid, tier, verif_seed, widx, nworkers, count, budget_s, outfile)
                 else:
                     unknown.append(v)
             rec["unknown"] = []
-            if unknown and n_viol_reported < 3:
+            if unknown and n_viol_reported < 2:
                 n_viol_reported += 1
                 v = unknown[0]
                 cls = sig_class(v["sig"])
